@@ -264,4 +264,93 @@ theorem nodeBranch_refines {pids : List Int} (hw : C07.WF pids) (k : Int) (h0 : 
   rw [e3]
   simp [Py.finish, nodeBranch, ht]
 
+/-! ### what the model chain is -/
+
+/-- a bottom-up chain as the first loop builds it: every node is followed by its parent (of which it is a child in the table), every
+node but the last is not a furcation, and the last (the top) is a furcation or has no parent (the root) -/
+inductive UpOK (K : Int → List Int) (pids : List Int) : List Int → Prop
+  | top (c : Int) : (2 ≤ (K c).length ∨ pids.getD c.toNat (-1) = -1) → UpOK K pids [c]
+  | step (c y : Int) (rest : List Int) : ¬ 2 ≤ (K c).length → pids.getD c.toNat (-1) = y → y ≠ -1 → c ∈ K y →
+      UpOK K pids (y :: rest) → UpOK K pids (c :: y :: rest)
+
+/-- the nodes the second loop appends below `c`: each is the ONLY child of its predecessor, and the last node of `c :: l` is a tip or a
+furcation -/
+inductive DownOK (K : Int → List Int) : Int → List Int → Prop
+  | stop (c : Int) : ((K c).length = 0 ∨ 2 ≤ (K c).length) → DownOK K c []
+  | step (c j : Int) (rest : List Int) : K c = [j] → DownOK K j rest → DownOK K c (j :: rest)
+
+theorem upC_ok {pids : List Int} (hw : C07.WF pids) : ∀ (f : Nat) (c : Int), 0 ≤ c → c < pids.length → Represent.D pids c ≤ f →
+    UpOK (KK pids) pids (upC (KK pids) pids f c) ∧ (upC (KK pids) pids f c).head? = some c := by
+  intro f
+  induction f with
+  | zero => intro c _ _ hD; have := Represent.D_pos pids c; omega
+  | succ f ih =>
+    intro c h0 hc hD
+    simp only [upC]
+    by_cases hF : 2 ≤ (KK pids c).length
+    · simp only [hF, if_true]; exact ⟨.top c (Or.inl hF), rfl⟩
+    · by_cases hP : pids.getD c.toNat (-1) = -1
+      · simp only [hF, hP, if_true, if_false]; exact ⟨.top c (Or.inr hP), rfl⟩
+      · have hpos : 0 < c := by
+          rcases Int.lt_or_eq_of_le h0 with h | h
+          · exact h
+          · exfalso; apply hP; rw [← h]; exact hw.par_root
+        have hv := hw.par_valid' c hpos hc
+        have hD' : Represent.D pids (pids.getD c.toNat (-1)) ≤ f := by
+          have := hw.path_cons c hpos hc
+          unfold Represent.D at hD ⊢
+          rw [this, List.length_cons] at hD
+          omega
+        obtain ⟨h1, h2⟩ := ih _ hv.1 hv.2 hD'
+        simp only [hF, hP, if_false]
+        refine ⟨?_, rfl⟩
+        have hmem : c ∈ KK pids (pids.getD c.toNat (-1)) := by
+          rw [C06.mem_tableKids]
+          exact ⟨h0, by omega, by rw [C06.getD_eq_getElem _ _ (by omega)]⟩
+        cases hu : upC (KK pids) pids f (pids.getD c.toNat (-1)) with
+        | nil => rw [hu] at h2; simp at h2
+        | cons y rest =>
+          rw [hu] at h1 h2
+          simp only [List.head?_cons, Option.some.injEq] at h2
+          subst h2
+          exact .step c _ rest hF rfl hP hmem h1
+
+theorem downC_ok {pids : List Int} (hw : C07.WF pids) : ∀ (f : Nat) (c : Int), 0 ≤ c → c < pids.length →
+    pids.length - Represent.D pids c < f → DownOK (KK pids) c (downC (KK pids) f c) := by
+  intro f
+  induction f with
+  | zero => intro c _ _ hD; omega
+  | succ f ih =>
+    intro c h0 hc hD
+    simp only [downC]
+    match hK : KK pids c with
+    | [] => exact .stop c (Or.inl (by rw [hK]; rfl))
+    | [j] =>
+      have hj : j ∈ tableKids (rangeI pids.length) pids c := by rw [show tableKids (rangeI pids.length) pids c = [j] from hK]; simp
+      obtain ⟨hj0, hjl, _, _⟩ := Represent.kid_facts hw c j h0 hj
+      have hDj := Represent.kid_D hw c j h0 hj
+      exact .step c j _ hK (ih j (by omega) hjl (by omega))
+    | a :: b :: t => exact .stop c (Or.inr (by rw [hK]; simp))
+
+/-- **shape of `Tree.Node.branch`** (model level): the node's chain up to the nearest furcation / the root, reversed, followed by the chain
+of only children down to the next furcation / tip -/
+theorem nodeBranch_shape {pids : List Int} (hw : C07.WF pids) (k : Int) (h0 : 0 ≤ k) (hk : k < pids.length) (F : Nat)
+    (hF : pids.length + 1 ≤ F) :
+    ∃ up down, nodeBranch pids F k = up.reverse ++ down ∧ up.head? = some k ∧ UpOK (KK pids) pids up ∧ DownOK (KK pids) k down := by
+  have hD := Represent.D_le hw k h0 hk
+  have hDp := Represent.D_pos pids k
+  obtain ⟨h1, h2⟩ := upC_ok hw F k h0 hk (by omega)
+  exact ⟨_, _, rfl, h2, h1, downC_ok hw F k h0 hk (by omega)⟩
+
+/-- the quirk recorded in DESIGN.md §6: the branch of a furcation is the one-node branch -/
+theorem nodeBranch_furcation (pids : List Int) (k : Int) (F : Nat) (hF : 2 ≤ (KK pids k).length) :
+    nodeBranch pids (F + 1) k = [k] := by
+  have h1 : upC (KK pids) pids (F + 1) k = [k] := by simp [upC, hF]
+  have h2 : downC (KK pids) (F + 1) k = [] := by
+    simp only [downC]
+    split
+    · rename_i j hj; rw [hj] at hF; simp at hF
+    · rfl
+  simp [nodeBranch, h1, h2]
+
 end RefineNodeBranch
